@@ -537,6 +537,22 @@ def str_method(I, v, name, args, kw):
         I.ctx.assume(z3.Length(r) <= z3.Length(s))
         return VStr(r, v.is_bytes)
     if name == "format":
+        # deterministic uninterpreted function of the format string and the (stringified) arguments
+        parts = []
+        ok = not kw
+        for a in args:
+            a = I.force(a) if not isinstance(a, VUnion) else a
+            if isinstance(a, VUnion):
+                ok = False
+                break
+            if a.tag in ("str", "int", "bool", "none", "real"):
+                parts.append(b_str(I, [a], {}).t)
+            else:
+                ok = False
+                break
+        if ok and len(parts) <= 4:
+            f = z3.Function("py_format%d" % len(parts), *([z3.StringSort()] * (len(parts) + 2)))
+            return VStr(f(s, *parts))
         return VStr(z3.String(I.fresh_name("fmt")))
     if name == "join":
         return VStr(z3.String(I.fresh_name("join")))
@@ -811,7 +827,7 @@ def setitem(I, base, idx, val):
         if isinstance(c, LConc):
             k = I.pyconst(idx)
             if k is MISSING:
-                raise Unsupported("concrete list store with symbolic index")
+                k = I.conc_index(idx, len(c.items))
             if not -len(c.items) <= k < len(c.items):
                 I.raise_("IndexError")
             items = list(c.items)
